@@ -5,6 +5,7 @@ CHECK_DEADLOCK FALSE
 CONSTANTS
  HonorsHost = FALSE
  SchemeBound = TRUE
+ FoldCase = FALSE
  StripOnRedirect = TRUE
  MaxFaults = 4
  Confs <- DeepConfs
@@ -13,3 +14,4 @@ CONSTANTS
  RedirTo <- CoreRedir
  TokReplies <- AllTok
  ForeignRealms <- TaRealm
+ LocTo <- AllLoc
